@@ -247,7 +247,14 @@ func (o *orC18) onIterLeave(it *iterRec) {
 		}
 		lim := 3*ms(cfg.TickMs) + 2*ms(cfg.HealthMs) + ms(cfg.DBSetRoForceTimeoutMs) + 16*time.Second
 		if s.now()-o.critSince > lim && it.faults == 0 {
-			m.violate("C18", "critical_not_fenced", "master-writable-at-critical-usage", fmt.Sprintf("master %s at %d%% usage has stayed writable for %v", m.master, msv.DiskPct, s.now()-o.critSince))
+			sig := "master-writable-at-critical-usage"
+			if len(msv.waiters) > 0 && msv.SSMaster {
+				// commits wait for a semi-sync acknowledgement nobody can give: the read-only statement
+				// cannot get through (neither can the session killer), and the guard does not switch
+				// semi-sync off to release them
+				sig = "master-writable-at-critical-usage:commits-stuck-on-semi-sync-ack"
+			}
+			m.violate("C18", "critical_not_fenced", sig, fmt.Sprintf("master %s at %d%% usage has stayed writable for %v", m.master, msv.DiskPct, s.now()-o.critSince))
 		}
 	} else {
 		o.critSince = 0
